@@ -368,7 +368,7 @@ func drawName(rt *rapid.T) (string, string) {
 
 func TestC16_Names(t *testing.T) {
 	rec := stats.New(t, "C16", rule)
-	rp.Check(t, 5000, 400000, func(rt *rapid.T) {
+	rp.Check(t, 5000, 150000, func(rt *rapid.T) {
 		name, kind := drawName(rt)
 		c := Case{Name: name, Depth: rapid.IntRange(2, 6).Draw(rt, "depth"),
 			Op: rp.Pick(rt, "op", "get", "get", "uninstall", "uninstall", "install-file", "install-dir", "verify-e2e")}
@@ -403,7 +403,7 @@ func TestC16_Names(t *testing.T) {
 // TestC16_List: listing reports exactly the real (non-symlink) sub-directories of the root.
 func TestC16_List(t *testing.T) {
 	rec := stats.New(t, "C16", rule)
-	rp.Check(t, 1500, 200000, func(rt *rapid.T) {
+	rp.Check(t, 1500, 60000, func(rt *rapid.T) {
 		tmp, err := os.MkdirTemp("", "c16l-")
 		if err != nil {
 			rt.Fatalf("harness: %v", err)
